@@ -10,7 +10,8 @@ ASPECTS = ['object-name', 'set-identifier', 'header-id', 'signed-int', 'channel-
            'ident-attribute', 'renamed-after-creation', 'header-id-reassigned', 'set-identifier-reassigned']
 PATTERNS = ['plain', 'nested', 'exception-at-build', 'exception-at-write', 'decorator', 'generator-abandoned',
             'interleaved-outside-file', 'assign-after-leaving', 'created-outside-assigned-inside', 'nested-decorators',
-            'decorator-inside-with', 'with-inside-decorator', 'retry-inside', 'outside-then-inside', 'twice-outside']
+            'decorator-inside-with', 'with-inside-decorator', 'retry-inside', 'outside-then-inside', 'twice-outside',
+            'managers-built-up-front', 'manager-created-inside-entered-after']
 META = {
     'level': 'exploration',
     'rule': ('one evaluation = one (specification, context pattern) executed inside the high-compatibility context and outside it: '
@@ -401,6 +402,36 @@ def run_case(case):
         if not all(box.get('flags', [True])):
             flag_problems.append(f'{pattern}: mode was off inside a decorated function')
         inside = box['run']
+    elif pattern == 'managers-built-up-front':
+        # the context-manager objects are created first and entered later (kept in variables / handed to an ExitStack)
+        import contextlib
+        outer_cm, inner_cm = high_compatibility_mode(), high_compatibility_mode()
+        with outer_cm:
+            with inner_cm:
+                pass
+            if not global_config.high_compat_mode:
+                flag_problems.append('leaving an inner context (created before the outer one was entered) switched the mode off inside the outer one')
+                global_config.high_compat_mode = True
+            inside = build_and_write(sp)
+        expect_flag(before, 'after with over managers created up front')
+        cms = [high_compatibility_mode() for _ in range(r.choice([2, 3]))]
+        with contextlib.ExitStack() as stack:
+            for cm in cms:
+                stack.enter_context(cm)
+            if not global_config.high_compat_mode:
+                flag_problems.append('mode off inside an ExitStack of contexts')
+        expect_flag(before, 'after ExitStack of managers created up front')
+    elif pattern == 'manager-created-inside-entered-after':
+        with high_compatibility_mode():
+            later = high_compatibility_mode()       # created while the mode is on ...
+        expect_flag(before, 'after with')
+        with later:                                 # ... entered (and left) when it is off again
+            if not global_config.high_compat_mode:
+                flag_problems.append('mode off inside a context whose manager was created earlier')
+        expect_flag(before, 'after a context whose manager was created inside another context')
+        with high_compatibility_mode():
+            inside = build_and_write(sp)
+        expect_flag(before, 'after with')
     elif pattern == 'generator-abandoned':
         def g():
             with high_compatibility_mode():
